@@ -10,6 +10,7 @@ import (
 	"sort"
 	"strconv"
 	"strings"
+	"sync"
 	"time"
 )
 
@@ -95,6 +96,9 @@ func cmdCheck(args []string) int {
 		seed, _ = strconv.Atoi(s)
 	}
 	t0 := time.Now()
+	if id != "C03" && id != "C05" && id != "C06" && id != "C09" && id != "C20" && os.Getenv("VERIF_NOPOS") == "" {
+		os.Setenv("VERIF_NOPOS", "1") // the ghost position layer is only needed where positions are claimed
+	}
 	g, err := Load(repoDir())
 	if err != nil {
 		fmt.Fprintln(os.Stderr, "ENGINE-ERROR: load:", err)
@@ -133,17 +137,64 @@ func cmdCheck(args []string) int {
 		if c.Trusted {
 			continue
 		}
-		if !contractMentions(c, id) {
-			continue
-		}
 		sess := g.Verify(c)
 		sessionByFunc[sess.Func] = sess
 		sessions = append(sessions, sess)
 	}
 	// cover obligations ride along with sessions that have selected obligations
 	wantAll := func(ob *Oblig) bool { return want(ob) || ob.Cover }
+	var active []*Session
+	for _, s := range sessions {
+		has := s.Unsup != ""
+		for _, ob := range s.Obligs {
+			if want(ob) {
+				has = true
+			}
+		}
+		if has {
+			active = append(active, s)
+		}
+	}
+	// a function that left the subset only matters to this property if its contract mentions it
+	var kept []*Session
+	for _, s := range active {
+		if s.Unsup != "" && !contractMentions(g.cs.Funcs[s.Func], id) {
+			continue
+		}
+		kept = append(kept, s)
+	}
+	sessions = kept
 	parallelDischarge(sessions, wantAll, cfg)
 
+	// second pass: obligations left undecided (timeout / unknown, not refuted) are retried one at a
+	// time with twice the time, so that load on the machine does not turn into an alarm
+	retrySem := make(chan struct{}, 4)
+	var rwg sync.WaitGroup
+	for _, s := range sessions {
+		for _, ob := range s.Obligs {
+			if !want(ob) || ob.Cover || ob.Canary || ob.Result == "unsat" || ob.Result == "sat" || ob.Result == "error" || ob.Result == "" {
+				continue
+			}
+			if cfg.NoRace[ob.Name] {
+				continue
+			}
+			rwg.Add(1)
+			go func(s *Session, ob *Oblig) {
+				defer rwg.Done()
+				retrySem <- struct{}{}
+				defer func() { <-retrySem }()
+				c2 := cfg
+				c2.TimeoutMs = cfg.TimeoutMs * 2
+				c2.Thorough = true // also asks z3 4.8.12 again, standalone
+				prev := ob.Result
+				raceStandalone(s, ob, c2)
+				if ob.Result == "error" && prev != "error" {
+					ob.Result = prev
+				}
+			}(s, ob)
+		}
+	}
+	rwg.Wait()
 	violations := 0
 	knownHits := 0
 	var obligs []*Oblig
